@@ -463,6 +463,9 @@ func (r *Reader) seekIndexed(want record) (*tableIter, error) {
 		return nil, err
 	}
 
+	// Every block an index entry leads to lies before the index, and
+	// before the block reached by the previous step of the descent.
+	limit := r.offsets[want.typ()].IndexOffset
 	for {
 		var rec indexRecord
 		ok, err := idxIter.Next(&rec)
@@ -473,11 +476,12 @@ func (r *Reader) seekIndexed(want record) (*tableIter, error) {
 			return nil, err
 		}
 
-		if rec.Offset >= idxIter.blockOff {
+		if rec.Offset >= limit {
 			// An index is written after the blocks it
 			// describes; anything else could loop forever.
 			return nil, fmtError
 		}
+		limit = rec.Offset
 		tabIter, err := r.tabIterAt(rec.Offset, blockTypeAny)
 		if err != nil {
 			return nil, err
